@@ -286,6 +286,12 @@ def run(ctx):
         elif i % 6 == 2:
             case = scarce_case(rng)
             ctx.feature('scarce-descriptors')
+        elif i % 6 == 4:
+            # larger molecules (more atoms with several branches), every cut uniquely labelled: the bonds are forced,
+            # so the molecule that was cut must come back (descriptors written behind sibling branches included)
+            case = gen_mol.cut_case(rng, nmin=7, nmax=14, label_p=1.0, aromatic_p=0.5, thio_p=0.6)
+            case['legacy'] = True
+            case['unique_labels'] = True
         else:
             case = gen_mol.ambiguous_case(rng)
         suites.run_resolve_case(ctx, 'resolve', case, oracle=dedicated_oracle if case.get('kind') == 'dedicated' else
